@@ -57,6 +57,38 @@ func orderSensitiveCerts() [][]byte {
 	return ders
 }
 
+// certificates with 1..16 SAN dNSNames in mixed case whose common name is one of them verbatim: parsed slices come
+// with every combination of length and spare capacity, upper-case content and cross-field equalities, which is what
+// in-place normalisation by one lint (visible to the lints after it) needs in order to show
+func manySanCerts() [][]byte {
+	var ders [][]byte
+	for k := 1; k <= 16; k++ {
+		for variant := 0; variant < 2; variant++ {
+			t := leafTemplate()
+			var names []string
+			for j := 0; j < k; j++ {
+				n := fmt.Sprintf("Host%d.Example%d.COM", j, k)
+				if variant == 1 && j%2 == 0 {
+					n = fmt.Sprintf("WWW%d.example.org", j)
+				}
+				names = append(names, n)
+			}
+			t.DNSNames = names
+			t.Subject.CommonName = names[k/2]
+			t.EmailAddresses = []string{"Admin@Example.COM"}
+			if variant == 1 {
+				t.Subject.Organization = []string{"Example  Org"}
+				t.Subject.Locality = []string{"City"}
+				t.Subject.Province = []string{"State"}
+			}
+			if der, _, err := issue(t, nil); err == nil {
+				ders = append(ders, der)
+			}
+		}
+	}
+	return ders
+}
+
 func init() {
 	commands["c05"] = func(args []string) error {
 		out := NewOutput()
@@ -77,6 +109,9 @@ func init() {
 		}
 		for i, der := range orderSensitiveCerts() {
 			objs = append(objs, object{fmt.Sprintf("generated-order-%d", i), der})
+		}
+		for i, der := range manySanCerts() {
+			objs = append(objs, object{fmt.Sprintf("generated-many-san-%d", i), der})
 		}
 		// (a) repetition: same status and details, however often
 		unstable := map[string]bool{}
